@@ -133,6 +133,14 @@ CLAIMS["C19"] = {
     "design_ref": "DESIGN.md §5 C19",
 }
 
+CLAIMS["C06"] = {
+    "technique": "static analysis: ownership table over struct layouts with must-pass-through of each owning field's release in its deallocator (bypass only via the field's NULL test), classification of every pointer field of owner records, guardedness of every increment of a sub-32-bit reference counter",
+    "text": "Decides two structural necessary conditions of exact counting: every release function (sentence, pending call, function pointer, object, connection, array/class/mapping/object variables) releases each owning field on every path before giving the container up, and every pointer field of those records is classified owning/not-owning; "
+            "every increment of a 16-bit reference counter is enumerated - strings saturate, eight counters do not (recorded findings keyed by declaration, so a new narrow counter or a de-saturated one is reported). "
+            "That counts return to their previous values after arbitrary evaluation sequences is behavioural and not decided.",
+    "design_ref": "DESIGN.md §5 C06",
+}
+
 NOT_APPLICABLE = {
     "C18": "Line/trace correctness is a value-level question about run-length tables (encode in the code generator, decode in find_line); no clause of it is visible in the shape of the code, so static analysis gives no verdict (DESIGN.md §6).",
 }
